@@ -4,6 +4,7 @@
 cd /verif
 for d in seeded/C*/; do
   id=$(basename $d); prop=${id%%-*}
+  if [ -f $d/NEUTRALISED ]; then echo "$id neutralised (made harmless by a later fix, see $d/NEUTRALISED)"; continue; fi
   out=$(tools/eval_mutant.sh /verif/$d/patch.diff $prop 2>&1)
   if echo "$out" | grep -q "^VIOLATION.*no-failing-input-found"; then r=corr-only
   elif echo "$out" | grep -q "^VIOLATION"; then r=concrete
